@@ -62,7 +62,7 @@ def rule_pipeline_definition_is_local(chk):
         g = lambda nm, intr=False: I.Enum("GlobalVariable", None, {"name": loc(nm), "type_id": I.Enum("TypeId", None, {"0": 3}), "storage_class": I.Enum("GlobalStorage", "Extern"), "lang_slot": binding(),
                                                                     "api_slot": opt(None), "is_bindless": False, "is_intrinsic": intr, "static_sampler": opt(None), "init": opt(None)})
         cb = I.Enum("ConstantBuffer", None, {"name": loc("CB"), "namespace": opt(None), "lang_binding": binding(), "api_binding": opt(None), "members": []})
-        other = I.Enum("PipelineDefinition", None, {"name": loc("Other"), "stages": [], "default_bind_group_index": 0, "graphics_pipeline_state": opt(None)})
+        other = I.Enum("PipelineDefinition", None, {"name": loc("Zed"), "stages": [], "default_bind_group_index": 0, "graphics_pipeline_state": opt(None)})
         return I.Enum("Module", None, {"pipelines": [other], "global_registry": [g("a"), g("b"), g("intrinsic", True)], "cbuffer_registry": [cb], "struct_registry": [], "flags": I.Opaque("flags")})
     flat = lambda v: repr(v)
     bad = None
@@ -91,7 +91,8 @@ def rule_pipeline_definition_is_local(chk):
             if changed and bad is None:
                 bad = "`Pipeline P { %s = ..; %s = ..; }` changes the module's %s: a declaration shared by all pipelines is rewritten by one pipeline's definition, and every other pipeline is compiled from the rewritten module" % (stage, p1, ", ".join(changed))
             elif (flat(pls[0]) != first or len(pls) != (2 if accepted else 1)) and bad is None:
-                bad = "`Pipeline P { %s = ..; %s = ..; }` (%s) leaves %d pipelines in the module%s" % (stage, p1, "accepted" if accepted else "refused", len(pls), ", the earlier pipeline changed" if flat(pls[0]) != first else "")
+                bad = "`Pipeline P { %s = ..; %s = ..; }` (%s) after `Pipeline Zed` leaves %d pipelines in the module%s" % (stage, p1, "accepted" if accepted else "refused", len(pls),
+                      ": P is not added after the pipelines declared before it (compile() returns one result per pipeline in source order)" if len(pls) == 2 and flat(pls[1]) == first else (", the earlier pipeline changed" if flat(pls[0]) != first else ""))
     chk.ob("C17.isolate/definition", bad is None, bad or "%d definitions: only a pipeline is added, the shared declarations are untouched" % n, where(pp), sample={"definitions": n})
     chk.floor("C17.floor/pipeline-definitions", n, 30, "pipeline definitions evaluated against a populated module", where(pp))
 
